@@ -2,6 +2,7 @@ import StraxModel.Lemmas.PulseHits
 import StraxModel.Lemmas.PulseCut
 import StraxModel.Lemmas.PulseLinks
 import StraxModel.Lemmas.PulseBaseline
+import StraxModel.Lemmas.PulseShift
 /-
   Helper lemmas of theory T14 (property C18).  The three imported files hold the hit finder
   (`PulseHits`), the data reduction (`PulseCut`) and the record links (`PulseLinks`); this file adds
